@@ -109,6 +109,13 @@ def make_plan(rng, schema, steps):
             names = [f.name for f in t.fields]
             rng.shuffle(names)
             st = {"op": step, "type": t.name, "keep": names[: max(1, len(names) - rng.randint(0, 2))], "add": rng.random() < 0.6}
+        elif step == "extend-enum":
+            enums = sorted(n for n, t in cur.types.items() if isinstance(t, EnumType) and not n.startswith("__"))
+            st = {"op": step, "type": rng.choice(enums)}
+        elif step == "extend-input":
+            st = {"op": step, "type": rng.choice(sorted(t.name for t in inputs))}
+        elif step == "extend-unrelated":
+            st = {"op": step, "n": len(plan)}
         else:
             st = {"op": step}
         plan.append(st)
@@ -149,6 +156,17 @@ def apply_plan(schema, plan):
             cur.validate()
         elif op == "clone":
             cur = cur.clone()
+        elif op == "identity-visibility":
+            cur = transform_schema(cur, VisibilitySchemaTransform())
+        elif op == "extend-unrelated":
+            from py_gql.sdl import extend_schema
+            cur = extend_schema(cur, "type HistExtra%d { z: Int }" % st["n"])
+        elif op == "extend-enum":
+            from py_gql.sdl import extend_schema
+            cur = extend_schema(cur, "extend enum %s { HIST_EXT }" % st["type"])
+        elif op == "extend-input":
+            from py_gql.sdl import extend_schema
+            cur = extend_schema(cur, "extend input %s { hist_ext: Int = 3 }" % st["type"])
     return cur
 
 
@@ -166,6 +184,21 @@ def use_world(world, reg):
         world.pipeline({"field": i, "vardefs": [], "args": [], "variables": []})
 
 
+def history_source(reg):
+    """the source registry of a history: + an enum whose internal values are falsy / look like None (0, False, "", -1)
+    one, and an input object that uses them and the non-identity custom scalars"""
+    reg = {"types": list(reg["types"])}
+    if U.reg_get(reg, "EZ") is None:
+        reg["types"].append({"name": "EZ", "kind": "enum", "values": [["Z", 0], ["F", False], ["EMPTY", ""], ["NEG", -1]]})
+        fields = [{"name": "ez_fld_0", "py": "ez_py", "type": N("EZ"), "default": [0]},
+                  {"name": "ezs_fld_1", "py": "ezs", "type": L(NN(N("EZ"))), "default": None}]
+        if U.reg_get(reg, "Even") is not None:
+            fields += [{"name": "ev_fld_2", "py": "even_py", "type": N("Even"), "default": None},
+                       {"name": "tg_fld_3", "py": "tg", "type": N("Tag"), "default": None}]
+        reg["types"].append({"name": "HZ", "kind": "input", "fields": fields})
+    return reg
+
+
 def replay_world(C07, hist):
     """rebuild (source world with a past) -> derived world from a recorded history"""
     reg = U.reg_from_jsonable(hist["source_reg"])
@@ -176,9 +209,47 @@ def replay_world(C07, hist):
     if not hist["plan"]:
         return src, reg, specs
     derived = apply_plan(src.schema, hist["plan"])
-    dreg = reg_from_schema(derived)
+    dreg = reference_reg(reg, reg_from_schema(derived))
     dspecs = [sp if sp is not None else [] for sp in specs_from_schema(derived, len(specs))]
     return make_derived_world(C07.World, src, derived, dreg, dspecs), dreg, dspecs
+
+
+def reference_reg(source_reg, dreg):
+    """What the derived schema must behave like. None of the derivations changes an enum's internal values (an `extend enum`
+    only ADDS names, whose internal value is the name): the reference keeps the SOURCE's internal value for every enum value
+    name the source had — so a derivation that silently rewrites them (resolvers would receive 'RED' instead of 0) shows up as a
+    non-conforming resolver argument, with the concrete request."""
+    out = {"types": []}
+    for t in dreg["types"]:
+        if t["kind"] == "enum":
+            src = U.reg_get(source_reg, t["name"])
+            if src is not None and src["kind"] == "enum":
+                old = {n: v for n, v in src["values"]}
+                t = dict(t, values=[[n, old[n]] if n in old else [n, v] for n, v in t["values"]])
+        out["types"].append(t)
+    return out
+
+
+def declaration_changes(source_reg, dreg):
+    """elements that no derivation here is entitled to change: enum internal values; type / default of input fields (matched by
+    their python name) -> list of short descriptions"""
+    out = []
+    for t in dreg["types"]:
+        src = U.reg_get(source_reg, t["name"])
+        if src is None or src["kind"] != t["kind"]:
+            continue
+        if t["kind"] == "enum":
+            old = {n: v for n, v in src["values"]}
+            for n, v in t["values"]:
+                if n in old and (type(old[n]) is not type(v) or old[n] != v):
+                    out.append("enum-internal-value:%s.%s:%r->%r" % (t["name"], n, old[n], v))
+        if t["kind"] == "input":
+            oldf = {f["py"]: f for f in src["fields"]}
+            for f in t["fields"]:
+                o = oldf.get(f["py"])
+                if o is not None and (o["type"] != f["type"] or repr(o["default"]) != repr(f["default"])):
+                    out.append("input-field:%s.%s" % (t["name"], f["name"]))
+    return out
 
 
 def premise_ok(reg, specs):
@@ -209,11 +280,13 @@ def make_derived_world(World, src, schema, reg, specs):
 def run(ctx, C07):
     rng = ctx.rng
     quick = ctx.tier == "quick"
-    sources = [("fixed-snake", snake_registry(U.fixed_registry()))]
+    sources = [("fixed-snake", history_source(snake_registry(U.fixed_registry())))]
     for i in range(ctx.n(1, 3)):
-        sources.append(("rnd-snake%d" % i, snake_registry(U.gen_registry(rng))))
+        sources.append(("rnd-snake%d" % i, history_source(snake_registry(U.gen_registry(rng)))))
+    # neutral derivations (the same requests must hand the resolvers the same kwargs) first, then the ones that change the declaration
+    neutral = [["extend-unrelated"], ["clone"], ["identity-visibility"], ["extend-unrelated", "clone"]]
     plans = [["hide-fields"], ["camel"], ["setter"], ["camel", "hide-fields"], ["hide-fields", "setter"], ["hide-type"], ["clone", "hide-fields"],
-             ["hide-fields", "hide-fields"]]
+             ["hide-fields", "hide-fields"], ["extend-enum"], ["extend-input"], ["extend-unrelated", "hide-fields"], ["camel", "extend-unrelated"]]
     for sid, reg in sources:
         if ctx.time_left() < (12 if quick else 60):
             ctx.notes.append("history: stopped before %s (time)" % sid)
@@ -228,7 +301,7 @@ def run(ctx, C07):
         if res is None:
             continue
         world, specs = res
-        chosen = rng.sample(plans, 3 if quick else 5)
+        chosen = rng.sample(neutral, 2 if quick else 3) + rng.sample(plans, 3 if quick else 4)
         for steps in chosen:
             if ctx.out_of_time():
                 break
@@ -248,7 +321,12 @@ def run(ctx, C07):
             ctx.stat("history:%s" % label)
             hist = {"source_reg": U.reg_to_jsonable(reg), "source_specs": [C07.spec_wire(sp) for sp in specs], "plan": plan}
             n_before = len(ctx.found)
-            dreg = reg_from_schema(derived)
+            declared = reg_from_schema(derived)
+            for ch in declaration_changes(reg, declared):
+                ctx.fail("derivation-changed-declaration:%s" % ch.split(":")[0],
+                         "a derived schema silently changed what an untouched element declares (%s)" % ch,
+                         {"check": "declaration", "history": hist, "change": ch})
+            dreg = reference_reg(reg, declared)
             dspecs_raw = specs_from_schema(derived, len(specs))
             if not premise_ok(dreg, dspecs_raw):
                 # a declared default (a python value written for the SOURCE type) mentions a field the derived schema hides:
